@@ -47,9 +47,17 @@ def gen_case_rng(rng, mode):
     length = W.gen_len(rng)
     kinds = ['edit', 'load', 'force', 'enforce', 'check']
     weights = rng.choice(([3, 3, 2, 3, 2], [1, 4, 4, 3, 2], [4, 1, 1, 2, 2]))
+    shared_rules = None
+    if mode == 'plain' and rng.random() < 0.2:
+        # the service also hands ONE Rules object to several enforcers
+        # through set_rules(..., use_conf=True)
+        shared_rules = W.gen_mapping(rng, w0, kmax=3)
     for _ in range(length):
         k = rng.choices(kinds, weights)[0]
         e = rng.randrange(n)
+        if shared_rules is not None and rng.random() < 0.2:
+            ops.append({'op': 'set_rules', 'e': e})
+            continue
         if k == 'edit':
             op = W.gen_edit(rng, worlds[e])
             op['e'] = e
@@ -61,6 +69,8 @@ def gen_case_rng(rng, mode):
     for e in range(n):
         ops.append({'op': 'check', 'e': e})
     case = {'prop': 'C12', 'worlds': worlds, 'ops': ops, 'mode': mode}
+    if shared_rules is not None:
+        case['shared_rules'] = shared_rules
     if mode == 'threads':
         # a schedule for the final concurrent load phase: every enforcer's
         # load+table runs in its own thread; segments of seeded length
@@ -211,6 +221,17 @@ def execute(case, backend='sim', record=False):
         deps = [dep_objs[g] for g in sorted(dep_objs)]
         snap0 = snap_all(shared, deps)
         E = [s.make_enforcer(defaults=shared) for s in sims]
+        service_rules = None
+        if case.get('shared_rules') is not None:
+            service_rules = policy.Rules.from_dict(
+                {k: rast.show(v) for k, v in case['shared_rules'].items()})
+
+        def snap_service_rules():
+            return (sorted((n, id(c), str(c))
+                           for n, c in service_rules.items()),
+                    service_rules.default_rule)
+        srules0 = snap_service_rules() if service_rules is not None else None
+        detached = [False] * len(E)   # policy set by set_rules: no twin
         prev = [None] * len(E)        # printed rules after previous load
         prev_table = [None] * len(E)
         dirty = [True] * len(E)
@@ -254,6 +275,9 @@ def execute(case, backend='sim', record=False):
         def full_check(step, i):
             t = sims[i].table(E[i])
             after_load(step, i, t)
+            if detached[i]:
+                dg.add('check-detached', step, i, t)
+                return
             twin = sims[i].make_enforcer()
             tt = sims[i].table(twin)
             cnt.hit('isolation_checks')
@@ -270,11 +294,24 @@ def execute(case, backend='sim', record=False):
         for step, op in enumerate(case['ops']):
             k = op['op']
             i = op['e']
-            if k in ('write', 'replace', 'empty', 'touch', 'unlink'):
+            others = [(j, printed(E[j])) for j in range(len(E)) if j != i]
+            if k == 'set_rules':
+                E[i].set_rules(service_rules, overwrite=True, use_conf=True)
+                detached[i] = True
+                dirty[i] = True
+                prev_table[i] = None
+                cnt.hit('probe:one_rules_object_given_to_enforcers')
+            elif k in ('write', 'replace', 'empty', 'touch', 'unlink'):
                 if sims[i].apply(op):
                     dirty[i] = True
                     cnt.hit('edits')
             elif k in ('load', 'force'):
+                if k == 'force' and detached[i]:
+                    # documented: a forced reload overwrites rules given
+                    # through set_rules() with the files' content again
+                    dirty[i] = True
+                    prev_table[i] = None
+                    detached[i] = False
                 try:
                     E[i].load_rules(force_reload=(k == 'force'))
                     r = 'ok'
@@ -294,6 +331,19 @@ def execute(case, backend='sim', record=False):
             else:
                 raise core.HarnessError('unknown op %r' % k)
             immut(step)
+            # an operation on enforcer i must leave every other enforcer's
+            # rule store alone
+            for j, before in others:
+                cnt.hit('cross_influence_checks')
+                now = printed(E[j])
+                if now != before:
+                    bad = sorted(n for n in set(now) | set(before)
+                                 if now.get(n) != before.get(n))
+                    judge(step, 'influences-other-enforcer', actor=i,
+                          victim=j, names=bad[:4])
+                    break
+            if srules0 is not None and snap_service_rules() != srules0:
+                judge(step, 'service-rules-object-mutated')
             if viol is not None:
                 break
 
@@ -584,10 +634,12 @@ COMPONENTS = {
     'stub': ['disk (SimFS)', 'operator', 'thread scheduling decisions'],
 }
 EXPECTED_PROBES = {'C12': ['multi_enforcer_runs',
-                           'shared_deprecated_rule_across_enforcers']}
+                           'shared_deprecated_rule_across_enforcers',
+                           'one_rules_object_given_to_enforcers']}
 
 
 def extra_coverage(prop, counters):
     return {k: counters.get(k, 0) for k in (
         'idempotence_checks', 'isolation_checks', 'snapshots_compared',
+        'cross_influence_checks',
         'forced_loads', 'enforces', 'threaded_phases', 'context_switches')}
